@@ -36,7 +36,11 @@ RULE = (
     "neighbour on both sides) for a probed region; distinct = distinct "
     "(rank string of the frames among the thresholds, interface count, cap "
     "position).  Signatures are capped per job, so distinct_nontrivial is a "
-    "lower bound; events.nontrivial_cases is the uncapped count.")
+    "lower bound; events.nontrivial_cases is the uncapped count.  Family "
+    "'rig': scheduler-rig histories with the lattice engine (3-7 ensembles, "
+    "sh/wf, half with wf in [0+] and a cap below the last interface): after "
+    "every accepted move the weight vector and the (min, max) that run_md "
+    "reports must equal the oracle's on the frames the path holds.")
 ASSUMPTIONS = [
     "inside = lambda_i <= op < cap; an end point is on the left outer side iff "
     "op <= lambda_0 and on the right iff op >= cap (the documented convention "
@@ -51,7 +55,8 @@ ASSUMPTIONS = [
     "beyond the weights it consumes",
 ]
 MUST_REACH = ["wf_count", "wf_reversal", "compute_weight", "positivity",
-              "segment_membership", "selection_law", "cv_vector", "cv_minus"]
+              "segment_membership", "selection_law", "cv_vector", "cv_minus",
+              "acc_weight_vector", "acc_reported_extremes"]
 JOB_TIMEOUT = 1500
 SIG_CAP = 4000          # signatures reported per job
 KNOWN_TAG = "wf-weight-doubled-with-undefined-endpoint"
@@ -89,7 +94,29 @@ def plan(tier, seed):
     for _ in range(nrand):
         jobs.append({"kind": "rand", "seed": rng.randrange(2 ** 31),
                      "count": count, "hashseed": rng.randrange(100)})
-    return jobs
+    # the same postcondition on the paths real moves produce: scheduler-rig
+    # histories (lattice engine), half of them with wire fencing in [0+] and
+    # a cap below the last interface
+    from vf.checks import _schedfam as F
+    rjobs = F.plan_jobs(tier, seed, "C10r", quick_jobs=12, thorough_jobs=200,
+                        cases_per_job=4, nmin=3, restarts=False)
+    for job in rjobs:
+        for spec in job["specs"]:
+            if rng.random() < 0.5:
+                spec["moves"][1] = "wf"
+                spec.pop("subcycles", None)
+                lo = max(i for i, m in enumerate(spec["moves"]) if m == "wf")
+                spec["cap"] = rng.randint(lo, spec["n_intf"] - 1) + 0.5
+    return jobs + rjobs
+
+
+def _mons(spec, cdir):
+    from vf.monitors import WeightVectorMonitor
+    return [WeightVectorMonitor()]
+
+
+def _nontrivial(rig, spec, mons):
+    return rig.reached.get("acc_weight_vector", 0) > 5
 
 
 # ------------------------------------------------------------------ harness
@@ -554,6 +581,9 @@ def run_minus(rec, tis, rng, intf, lm1, cap, step):
 
 
 def work(job, scratch):
+    if job["kind"] == "rig":
+        from vf.checks import _schedfam as F
+        return F.generic_work(job, scratch, _mons, _nontrivial)
     rec = Rec()
     (run_exh if job["kind"] == "exh" else run_rand)(job, rec)
     return {"n": rec.n, "sigs": sorted(rec.sigs), "events": rec.ev,
